@@ -186,7 +186,17 @@ def eptr(rep, prog, fn, region, rule="C15.eptr-discipline"):
         for h in t.get("handlers", []):
             if h["type"] != "...":
                 continue
-            stmts = h["body"].get("c", [])
+            def _flat(b):
+                out_ = []
+                for x_ in b.get("c", []):
+                    if x_.get("k") == "CompoundStmt":
+                        out_ += _flat(x_)       # a plain nested block (e.g. a helper inlined by the normaliser)
+                    elif x_.get("k") == "DeclStmt" and all(d_.get("inlined_param") for d_ in x_.get("decls", [])):
+                        continue
+                    else:
+                        out_.append(x_)
+                return out_
+            stmts = _flat(h["body"])
             ok = len(stmts) == 1 and stmts[0].get("omp") == "critical"
             var = None
             if ok:
@@ -210,7 +220,27 @@ def eptr(rep, prog, fn, region, rule="C15.eptr-discipline"):
                 i = [j for j, c in enumerate(parent["c"]) if c is region][0]
                 after = parent["c"][i + 1:]
             found = False
-            for s in after:
+            # form 2:  if(!e) return;  std::rethrow_exception(e);
+            for i_, s in enumerate(after[:-1]):
+                if s.get("k") == "IfStmt" and s.get("else") is None:
+                    c_ = strip(s["cond"])
+                    neg_ = False
+                    while c_.get("k") == "UnaryOperator" and c_.get("op") == "!":
+                        neg_ = not neg_
+                        c_ = strip(c_["c"][0])
+                    refs_ = [x for x in walk(c_) if x.get("k") == "DeclRefExpr"]
+                    from ..model import always_exits as _ae
+                    if neg_ and refs_ and all(x["ref"]["did"] == var["did"] for x in refs_) and _ae(s["then"]) and not any(x.get("k") == "CXXThrowExpr" for x in walk(s["then"])):
+                        nx = after[i_ + 1]
+                        th = [x for x in walk(nx) if x.get("k") == "CallExpr" and x.get("callee") == "std::rethrow_exception"]
+                        if th and nx.get("k") not in ("IfStmt", "ForStmt", "WhileStmt"):
+                            arg = strip(call_args(th[0])[0])
+                            while arg.get("k") in ("CXXConstructExpr",) and arg.get("c"):
+                                arg = strip(arg["c"][0])
+                            if arg.get("k") == "DeclRefExpr" and arg["ref"]["did"] == var["did"]:
+                                found = True
+                break
+            for s in ([] if found else after):
                 if s.get("k") == "IfStmt":
                     cond_refs = [x for x in walk(s["cond"]) if x.get("k") == "DeclRefExpr"]
                     thens = [x for x in walk(s["then"]) if x.get("k") == "CallExpr" and x.get("callee") == "std::rethrow_exception"]
